@@ -535,16 +535,14 @@ def _attach_empty(ctx):
     ctx.require(seen >= 3, 'add_node call sites of the loader', rule='C04.3')
 
 
-def _affinity_fixed(ctx):
-    """C04.1: the counter an instance was added to at placement is the one
-    it is taken from at removal and the one the limit test reads: the
-    affinity of an instance is set by its constructor and never afterwards
-    (the manifest of a placed instance may be rewritten; what it was placed
-    under stays)."""
+def fixed_after_construction(ctx, rule, attr, why_ok, why_bad):
+    """OWNER: attribute ``attr`` of an instance is stored (re-bound, updated
+    in place through a subscript / slice, or augmented) by a constructor
+    only."""
     index = ctx.index
     mods = [index.module(K.SCHED), index.module(K.LOADER),
             index.module(K.MASTER)]
-    if ctx.tier == 'thorough':
+    if ctx.tier in ('quick', 'thorough'):   # whole-package clause, cheap enough for every run
         mods = [m for m in index.modules.values()
                 if 'treadmill.scheduler' in m.imports.values() or
                 m.name.startswith('treadmill.scheduler')]
@@ -560,24 +558,85 @@ def _affinity_fixed(ctx):
                 for tgt in tgts:
                     for leaf in ast.walk(tgt):
                         if not (isinstance(leaf, ast.Attribute) and
-                                leaf.attr == 'affinity' and
-                                isinstance(leaf.ctx, ast.Store)):
+                                leaf.attr == attr):
+                            continue
+                        # x.attr = ..   x.attr[..] = ..   x.attr op= ..
+                        direct = isinstance(leaf.ctx, ast.Store)
+                        through = leaf is not tgt and any(
+                            isinstance(par, ast.Subscript) and
+                            par.value is leaf and
+                            isinstance(par.ctx, ast.Store)
+                            for par in ast.walk(tgt))
+                        if not (direct or through):
                             continue
                         ok = func.name == '__init__' and \
                             K.name_is(leaf.value, 'self')
                         inside += ok
-                        ctx.ob('C04.1', func, sub, ok,
-                               'the affinity of an instance is set by its '
-                               'constructor only' if ok else
-                               'the affinity of a (possibly placed) instance '
-                               'is replaced: the counters it was added to '
-                               'are no longer the ones it is removed from',
-                               construct='affinity owner')
-    ctx.require(inside >= 1, 'the constructor store of Application.affinity',
-                rule='C04.1')
+                        ctx.ob(rule, func, sub, ok,
+                               why_ok if ok else why_bad,
+                               construct='%s owner' % attr)
+    ctx.require(inside >= 1, 'the constructor store of %s' % attr, rule=rule)
+
+
+def _affinity_fixed(ctx):
+    """C04.1: the counter an instance was added to at placement is the one
+    it is taken from at removal and the one the limit test reads: the
+    affinity of an instance is set by its constructor and never afterwards
+    (the manifest of a placed instance may be rewritten; what it was placed
+    under stays)."""
+    fixed_after_construction(
+        ctx, 'C04.1', 'affinity',
+        'the affinity of an instance is set by its constructor only',
+        'the affinity of a (possibly placed) instance is replaced: the '
+        'counters it was added to are no longer the ones it is removed from')
+
+
+def _bucket_level(ctx):
+    """C04.2: the limit that applies at a bucket is looked up under the
+    bucket's level; a bucket without a recorded level takes the first
+    component of its name (rack:r1, rack:east:r1 -> rack), which is how the
+    limits of an instance name the levels."""
+    loader = ctx.index.get_class(K.LOADER, 'Loader')
+    func = loader.methods.get('load_bucket') if loader else None
+    ctx.require(func is not None, 'Loader.load_bucket', rule='C04.2')
+    ctors = [c for c in K.calls(func.node)
+             if K.callee_text(c).endswith('Bucket')]
+    ctx.require(ctors, 'Bucket constructor in load_bucket', rule='C04.2',
+                func=func)
+    name = func.params()[1]
+    for call in ctors:
+        level = K.kwarg(call, 'level')
+        if level is None and len(call.args) > 1:
+            level = call.args[1]
+        expr = K.rexpr(func, level) if level is not None else None
+        default = None
+        if isinstance(expr, ast.Call) and K.is_meth(expr, 'get') and \
+                len(expr.args) == 2:
+            default = expr.args[1]
+        if isinstance(default, ast.Call) and isinstance(
+                default.func, ast.Name):
+            # a small helper of the module: judged by what it computes
+            inl = K.inline_expr_call(ctx.index, func, default)
+            if inl is not None:
+                default = inl
+        ok = False
+        if isinstance(default, ast.Subscript) and \
+                N.txt(default.slice) == '0' and \
+                isinstance(default.value, ast.Call) and \
+                K.is_meth(default.value, 'split', 'partition') and \
+                N.txt(K.recv(default.value)) == name and \
+                default.value.args and \
+                N.txt(default.value.args[0]) == "':'":
+            ok = True
+        ctx.ob('C04.2', func, call, ok,
+               'a bucket without a recorded level takes the first component '
+               'of its name (%s)' % (N.txt(expr) if expr is not None
+                                     else 'no level given'),
+               construct='bucket level from the name')
 
 
 def check(ctx):
+    _bucket_level(ctx)
     node_cls, server = _counters(ctx)
     base = _polarity(ctx, node_cls)
     _every_level(ctx, node_cls, server, base)
